@@ -8,6 +8,6 @@ WT=$(mktemp -d /tmp/verif-tryseed.XXXXXX); trap 'rm -rf "$WT"' EXIT
 (cd "$WT" && git init -q . && git add -A >/dev/null 2>&1 && git -c user.email=v@v -c user.name=v commit -qm base >/dev/null)
 if ! git -C "$WT" apply "$patch" 2>/dev/null; then if ! git -C "$WT" apply -3 "$patch" 2>/dev/null; then echo "PATCH DOES NOT APPLY"; exit 3; fi; fi
 for q in $p "$@"; do
-  out=$("$VERIF/bin/verifcheck" -property "$q" -repo "$WT" -verif "$VERIF" -no-evidence 2>&1); rc=$?
+  out=$("${VERIFBIN:-$VERIF/bin/verifcheck}" -property "$q" -repo "$WT" -verif "$VERIF" -no-evidence 2>&1); rc=$?
   echo "== $q rc=$rc"; grep -B1 "^VIOLATION" <<<"$out" | grep -v "^VIOLATION\|^--" | cut -c1-330 | head -6; tail -1 <<<"$out"
 done
